@@ -1,6 +1,6 @@
 (* C08 — partial-axis reductions and batch dimensions are independent slices. *)
 From Coq Require Import ZArith String List Bool.
-From Flox Require Import ListX Val Agg Spec Pipeline PipelineLaw Binning BinningLaw C08Proofs.
+From Flox Require Import ListX Val Agg Spec Pipeline PipelineLaw Binning BinningLaw C08Proofs NdShape NdShapeLaw C08NdProofs.
 Import ListNotations.
 Open Scope Z_scope.
 
@@ -27,6 +27,64 @@ Theorem C08_flattened_equals_slicewise :
     = vals_of g (nth r rows_codes []) (nth r rows_vals []).
 Proof. exact C08Proofs.flattened_slicewise. Qed.
 
+(* ---- arrays of ANY number of dimensions, ANY subset of axes in ANY order ----
+   NdShape.v models an array as (shape, C-ordered data), _move_reduce_dims_to_end as the transpose with order
+   (axes not reduced, ascending) ++ (reduced axes as given) and _collapse_axis as the C-order reshape of the last axes
+   (K2: exact correspondence with the two flox functions on all shapes of <= 4 dims with sizes <= 3 and every ordered subset
+   of axes).  After the plumbing, row ravel(ki), column ravel(ri) holds the original element whose index has ki on the kept
+   axes and ri on the reduced ones ... *)
+Theorem C08_plumbing_moves_each_element_where_it_belongs :
+  forall (A : Type) (d : A) (a : nd A) axis ki ri,
+    let n := length (shape a) in
+    in_range (perm_shape (kept_axes n axis) (shape a)) ki ->
+    in_range (perm_shape axis (shape a)) ri ->
+    get A d (plumb A d axis a) (ki ++ [ravel (perm_shape axis (shape a)) ri])
+    = get A d a (unperm (move_order n axis) (ki ++ ri)).
+Proof. exact plumb_get. Qed.
+
+(* ... where unperm really is "ki on the kept axes, ri on the reduced axes": the old index carries component j of
+   (ki ++ ri) on axis order[j], and order is a permutation of all axes whenever the reduced axes are distinct and in range *)
+Theorem C08_unperm_places_components :
+  forall order idx' j, NoDup order -> (j < length order)%nat -> (nth j order 0%nat < length order)%nat ->
+    nth (nth j order 0%nat) (unperm order idx') 0%nat = nth j idx' 0%nat.
+Proof. exact unperm_spec. Qed.
+
+Theorem C08_move_order_is_a_permutation :
+  forall n axis, NoDup axis -> (forall ax, In ax axis -> (ax < n)%nat) ->
+    NoDup (move_order n axis) /\ (forall ax, In ax (move_order n axis) <-> (ax < n)%nat) /\ length (move_order n axis) = n.
+Proof. exact move_order_perm. Qed.
+
+(* C-order ravel / unravel are mutually inverse on in-range indices (every size, every number of dimensions) *)
+Theorem C08_ravel_unravel_inverse :
+  forall s, (forall idx, in_range s idx -> unravel s (ravel s idx) = idx) /\
+            (forall k, (k < nprod s)%nat -> ravel s (unravel s k) = k /\ in_range s (unravel s k)).
+Proof.
+  intros s. split; [apply unravel_ravel|]. intros k Hk. split; [now apply ravel_unravel| now apply unravel_in_range].
+Qed.
+
+(* THE n-d STATEMENT OF C08: offsetting the codes row by row and reducing the flattened, plumbed arrays gives, in the slot of
+   (kept index ki, group g), exactly the members of group g within the slice of the ORIGINAL array at kept index ki (in C order
+   of the reduced axes): the one-dimensional grouped reduction on that slice.  Codes -1 (missing) belong to no slot. *)
+Theorem C08_partial_axis_reduction_is_slicewise :
+  forall ng (a : nd xval) (c : nd Z) axis ki g dv,
+    0 < ng -> 0 <= g < ng ->
+    shape c = shape a ->
+    Forall (fun x => -1 <= x < ng) (data c) ->
+    let n := length (shape a) in
+    let kept := perm_shape (kept_axes n axis) (shape a) in
+    let red := perm_shape axis (shape a) in
+    in_range kept ki ->
+    vals_of (g + Z.of_nat (ravel kept ki) * ng)
+            (C08Proofs.offset_all ng 0 (rows (nprod kept) (nprod red) (data (plumb Z 0 axis c))))
+            (concat (rows (nprod kept) (nprod red) (data (plumb xval dv axis a))))
+    = vals_of g (slice Z 0 axis c ki) (slice xval dv axis a ki).
+Proof. exact partial_axis_slicewise. Qed.
+
 Print Assumptions C08_offset_separates_rows.
+Print Assumptions C08_plumbing_moves_each_element_where_it_belongs.
+Print Assumptions C08_unperm_places_components.
+Print Assumptions C08_move_order_is_a_permutation.
+Print Assumptions C08_ravel_unravel_inverse.
+Print Assumptions C08_partial_axis_reduction_is_slicewise.
 Print Assumptions C08_offset_keeps_missing.
 Print Assumptions C08_flattened_equals_slicewise.
